@@ -83,8 +83,14 @@ fn strategy() -> BoxedStrategy<Case> {
     // binary leaves not beneath a ReplaceSource hold invalid UTF-8 now and then (source() and buffer() then
     // differ in length); everything else stays ASCII
     vec(any::<u16>(), 0..=4),
+    // one tree in 16 is doubled: an add-typed ConcatSource holding the tree twice (built as c.add(c.clone()) on the x side)
+    0u8..16u8,
   )
-    .prop_map(|(x, edit, hx, hy, observed_build, bin)| Case { shared_map: None, x: crate::props::common::with_binary(x, &bin), edit, hx, hy, observed_build })
+    .prop_map(|(x, edit, hx, hy, observed_build, bin, double)| {
+      let x = crate::props::common::with_binary(x, &bin);
+      let (x, observed_build) = if double == 0 { (Spec::Concat { how: 1, children: vec![x.clone(), x] }, None) } else { (x, observed_build) };
+      Case { shared_map: None, x, edit, hx, hy, observed_build }
+    })
     .boxed()
 }
 
@@ -328,6 +334,9 @@ impl Prop for C14 {
         }
         None => match case.observed_build {
           Some(k) => (crate::build::build_observed(xs, &mut |s| observe_during_build(s, k)), build(&ys)),
+          // a tree that holds a typed ConcatSource twice: x shares the reference-counted children between the two
+          // positions (clone handed to the flattening `add`), y is built from separately allocated ones
+          None if crate::build::has_shareable_twins(xs) => (crate::build::build_shared(xs), build(&ys)),
           None => (build(xs), build(&ys)),
         },
       };
@@ -447,6 +456,7 @@ impl Prop for C14 {
       Ok(
         CaseInfo::nt(case.hx.is_empty() != case.hy.is_empty())
           .class(same_spec, "pair built from the same Spec")
+          .class(case.shared_map.is_none() && case.observed_build.is_none() && crate::build::has_shareable_twins(xs), "x holds the same reference-counted children at two positions, y separately allocated ones")
           .class(case.observed_build.is_some() && xs.any(&|s| matches!(s, Spec::Replace { repls, .. } if repls.len() >= 2)), "x observed while under construction (>=2 replacements)")
           .class(!same_spec && eq0, "different construction, compares equal")
           .class(!same_spec && !eq0, "one edit apart, compares unequal")
